@@ -317,6 +317,8 @@ def classes_for(meta, dname, op, arg):
         cl.append("fresh_object")
         if kind in FRESH_BROKEN:
             cl.append("fresh_object_of_load_only_kind")
+    if arg == "-":
+        cl.append("empty_pattern")
     return cl
 
 
@@ -342,7 +344,7 @@ def evaluate(case, io, mo, S=None, memreports=None):
             if m:
                 sites.append("site:%s %s" % (m.group(1), m.group(2).strip().replace(" ", "_")))
         fails.append(Fail(op, "implementation %s: %s" % (io["status"], " | ".join(io["err"][-1:] + io["err"][:2])), cmd,
-                          classes_for(meta, dname, op, "") + ["crash"] + sites + (["timeout"] if io["status"] == "timeout" else []), dname))
+                          classes_for(meta, dname, op, t[3] if len(t) > 3 else "") + ["crash"] + sites + (["timeout"] if io["status"] == "timeout" else []), dname))
     permuted = kind in HASH_KINDS or kind == "XBW"
     tables = {}  # dict name -> {id: bytes}
     if permuted:
@@ -377,7 +379,7 @@ def evaluate(case, io, mo, S=None, memreports=None):
             t = cmd.split()
             why = crashed[0].split()[4:]
             fails.append(Fail(t[2] if len(t) > 2 else "?", "query did not return: %s %s" % (" ".join(why), " ".join(sites)), cmd,
-                              classes_for(meta, t[1], t[2], "") + ["crash"] + sites + (["timeout"] if "timeout" in why else []), t[1]))
+                              classes_for(meta, t[1], t[2], t[3] if len(t) > 3 else "") + ["crash"] + sites + (["timeout"] if "timeout" in why else []), t[1]))
             continue
         if b.startswith("SKIP load-ok"):
             if " ok " not in a + " ":
